@@ -91,6 +91,18 @@ def run(chk):
     pick = rng.sample(special, min(len(special), 120 if chk.tier == "quick" else 1500))
     pick += ["a/../../b", "/etc/passwd", "foo/../bar", "/a/../..//b", "a b/c d", "x", "dir/sub/file", "..\\x", "a/./b"]
     specs = []
+    # names whose raw spelling climbs out of the directory unless every consumer uses the resolved spelling: each in
+    # both prefix modes and both consistent-snapshot settings, intact transfer (a digest prefix glued to the raw
+    # name absorbs one leading '..', hence the deeper ones)
+    climbers = ["../x", "../../x", "../../../x", "../../../../x", "/../../x", "/../../../x", "a/../../../../x",
+                "..//..//..//x", "./../../../x", ".//a", "a/../../b", "a/b/../../../../../c", "../../../sub/d"]
+    for n in climbers:
+        for cs in (False, True):
+            for prefix in (False, True):
+                specs.append((n, cs, prefix, "none", False, False))
+    names = names + [n for n in climbers if n not in names]
+    extra_cases = [[8, 0, C.enc(n)] for n in names[len(i):]]
+    i = i + C.run_impl(extra_cases)
     for n in pick:
         if "\x00" in n:
             continue
